@@ -5,6 +5,8 @@
 # must never reference files it does not contain, or MANIFEST.setup_cmd fails on a fresh checkout).
 cd /verif || exit 2
 msg="$1"; shift
+# record the fingerprints of the anchored sources the checks are validated against at this commit
+python3 harness/fingerprints.py --update >/dev/null && git add fingerprints.json
 [ $# -gt 0 ] && git add -- "$@"
 tracked=$(git ls-files --cached coq/theories | sed 's#^coq/##')
 tmp=$(mktemp)
